@@ -6,6 +6,7 @@
 #include "spaces.h"
 #include "uci_session.h"
 
+#include <set>
 #include <unordered_map>
 
 using namespace engine;
@@ -633,6 +634,92 @@ static void list_mates(const std::string& sigspec)
     R.subspaces.push_back(sub);
 }
 
+// C08 (b) on middlegame-like material: every position within 1 (quick) / 2 plies of tactical seeds
+// (forced mates through captures, sacrifices, back-rank and smothered patterns) x go depth 1..4/5
+static void list_tactics()
+{
+    mc::Subspace sub;
+    sub.name = "tactical neighbourhoods";
+    bool q = TIER == "quick";
+    int radius = q ? 1 : 2, maxd = q ? 4 : 5;
+    sub.bound = "every position within " + std::to_string(radius) + " plies of 16 tactical seeds and their colour mirrors x go depth 1.." + std::to_string(maxd) + "; every final mate announcement verified by the solver";
+    const char* seeds[] = {
+        "r2r2k1/5ppp/8/8/4R3/8/4R1PP/4Q2K w - - 0 1",
+        "3rr1k1/5ppp/8/8/8/8/5PPP/3RR1K1 w - - 0 1",
+        "6rk/6pp/8/6N1/8/1Q6/6PP/6K1 w - - 0 1",
+        "r5rk/6pp/7N/8/8/1Q6/6PP/6K1 w - - 0 1",
+        "6k1/5ppp/8/8/8/8/8/R3K3 w Q - 0 1",
+        "2r3k1/5ppp/8/8/8/8/2R2PPP/2R3K1 w - - 0 1",
+        "r1bq2kr/pppp2pp/2n5/2b1N3/2B1P3/8/PPP2nPP/RNBQ1RK1 w - - 0 1",
+        "rnb1kbnr/pppp1ppp/8/4p3/6Pq/5P2/PPPPP2P/RNBQKBNR w KQkq - 1 3",
+        "r1bqkb1r/pppp1Qpp/2n2n2/4p3/2B1P3/8/PPPP1PPP/RNB1K1NR b KQkq - 0 4",
+        "5rk1/5ppp/8/8/8/8/3Q1PPP/3R2K1 w - - 0 1",
+        "4r1k1/5ppp/8/8/8/5Q2/5PPP/4R1K1 w - - 0 1",
+        "7k/5Q2/6K1/8/8/8/8/8 w - - 0 1",
+        "k7/2Q5/1K6/8/8/8/8/8 b - - 0 1",
+        "8/8/8/8/8/5k2/4q3/6K1 w - - 0 1",
+        "kbK5/pp6/1P6/8/8/8/8/R7 w - - 0 1",
+        "8/8/8/8/1b6/k7/2p5/K1B5 b - - 0 1",
+    };
+    std::set<std::string> seen;
+    std::vector<ref::Pos> todo;
+    for (const char* f : seeds)
+    {
+        ref::Pos p;
+        ref::parse_fen(f, p);
+        for (int mir = 0; mir < 2; ++mir)
+        {
+            ref::Pos r = mir ? ref::mirror(p) : p;
+            r.hmc = 0;
+            r.fmn = 1;
+            if (!ref::retro_ok(r)) continue;
+            std::vector<ref::Pos> frontier{r};
+            for (int d = 0; d <= radius; ++d)
+            {
+                std::vector<ref::Pos> next;
+                for (auto& x : frontier)
+                {
+                    if (!seen.insert(ref::identity(x)).second) continue;
+                    todo.push_back(x);
+                    if (d == radius) continue;
+                    std::vector<ref::Mv> lm;
+                    ref::gen_legal(x, lm);
+                    ref::Pos t;
+                    for (auto& m : lm)
+                    {
+                        ref::make(x, m, t);
+                        t.hmc = 0;
+                        next.push_back(t);
+                    }
+                }
+                frontier.swap(next);
+            }
+        }
+    }
+    R.count("tactical_positions", todo.size());
+    for (auto& x : todo)
+    {
+        std::vector<ref::Mv> lm;
+        ref::gen_legal(x, lm);
+        if (lm.empty()) continue;
+        bool m1 = memo_can_mate_in(x, 1);
+        for (int d = 1; d <= maxd; ++d)
+        {
+            if (!mine()) continue;
+            if (R.out_of_time()) goto done;
+            Session s = base(ref::fen(x), "go depth " + std::to_string(d), std::string(m1 ? "m1 " : "any ") + "tactics");
+            s.spec.horizon = 5000000;
+            run_and_check(s);
+            sub.states++;
+            if (sub.states == 6) R.sample(spec_json(s));
+        }
+    }
+    sub.exhaustive = true;
+done:
+    sub.transitions = sub.states;
+    R.subspaces.push_back(sub);
+}
+
 static void list_depths()
 {
     mc::Subspace sub;
@@ -674,6 +761,28 @@ static void list_depths()
                     sub.states++;
                     if (sub.states == 13) R.sample(spec_json(s));
                 }
+    }
+    // a depth limit given together with a time control: the depth limit still binds
+    for (auto& sp : SEEDS)
+    {
+        if (sp.cls == 2) continue;
+        for (int d : {1, 2, 3})
+            for (const char* extra : {" movetime 100000", " wtime 600000 btime 600000", " wtime 600000 btime 600000 winc 1000 binc 1000 movestogo 5", " movetime 100000 searchmoves @0"})
+            {
+                std::string go = "go depth " + std::to_string(d) + extra;
+                if (go.find('@') != std::string::npos)
+                {
+                    auto ms = legal_ucis(sp.fen);
+                    go = go.substr(0, go.find('@')) + ms[0];
+                }
+                if (!mine()) continue;
+                if (R.out_of_time()) goto done;
+                Session s = base(sp.fen, go, std::string("depth+clock:") + sp.name);
+                s.spec.clock_step_ms = 1;
+                s.spec.horizon = 3000000;
+                run_and_check(s);
+                sub.states++;
+            }
     }
     // time / clock limits under a virtual clock: every step size makes the budget expire at another poll
     for (auto& sp : SEEDS)
@@ -957,6 +1066,7 @@ int main(int argc, char** argv)
     else if (list == "poison") list_poison();
     else if (list == "mates") list_mates(sigspec);
     else if (list == "depths") list_depths();
+    else if (list == "tactics") list_tactics();
     else if (list == "clockseam") list_clockseam();
     else if (list == "ucipath") list_ucipath();
     else if (list == "ucikeep") list_ucikeep();
